@@ -58,6 +58,12 @@ impl ToVal for (i64, i64, i64) {
         Val::T(vec![self.0, self.1, self.2])
     }
 }
+pub type T12 = (i64, i64, i64, i64, i64, i64, i64, i64, i64, i64, i64, i64);
+impl ToVal for T12 {
+    fn to_val(&self) -> Val {
+        Val::T(vec![self.0, self.1, self.2, self.3, self.4, self.5, self.6, self.7, self.8, self.9, self.10, self.11])
+    }
+}
 
 // ---------------------------------------------------------------- pure function tables
 
@@ -839,6 +845,7 @@ pub enum Root {
     T1(Src<(i64,)>),
     T2(Src<(i64, i64)>),
     T3(Src<(i64, i64, i64)>),
+    T12(Src<T12>),
 }
 
 pub struct Built {
@@ -1001,6 +1008,20 @@ pub fn build(world: &Arc<World>, sc: &Scenario) -> Built {
             match m.len() {
                 1 => Root::T1(Arc::new(callbag::combine!(m[0].clone()))),
                 2 => Root::T2(Arc::new(callbag::combine!(m[0].clone(), m[1].clone()))),
+                12 => Root::T12(Arc::new(callbag::combine!(
+                    m[0].clone(),
+                    m[1].clone(),
+                    m[2].clone(),
+                    m[3].clone(),
+                    m[4].clone(),
+                    m[5].clone(),
+                    m[6].clone(),
+                    m[7].clone(),
+                    m[8].clone(),
+                    m[9].clone(),
+                    m[10].clone(),
+                    m[11].clone()
+                ))),
                 _ => Root::T3(Arc::new(callbag::combine!(m[0].clone(), m[1].clone(), m[2].clone()))),
             }
         }
@@ -1014,6 +1035,7 @@ enum AnyProbe {
     T1(Arc<Probe<(i64,)>>),
     T2(Arc<Probe<(i64, i64)>>),
     T3(Arc<Probe<(i64, i64, i64)>>),
+    T12(Arc<Probe<T12>>),
 }
 
 impl AnyProbe {
@@ -1023,6 +1045,7 @@ impl AnyProbe {
             AnyProbe::T1(p) => p.send(k),
             AnyProbe::T2(p) => p.send(k),
             AnyProbe::T3(p) => p.send(k),
+            AnyProbe::T12(p) => p.send(k),
         }
     }
 }
@@ -1080,6 +1103,7 @@ pub fn run(sc: &Scenario) -> History {
             Root::T1(_) => AnyProbe::T1(Probe::new(i, &world, spec_of(i))),
             Root::T2(_) => AnyProbe::T2(Probe::new(i, &world, spec_of(i))),
             Root::T3(_) => AnyProbe::T3(Probe::new(i, &world, spec_of(i))),
+            Root::T12(_) => AnyProbe::T12(Probe::new(i, &world, spec_of(i))),
         })
         .collect();
 
@@ -1094,6 +1118,7 @@ pub fn run(sc: &Scenario) -> History {
                     AnyProbe::T1(p) => Arc::clone(p) as Arc<dyn SinkDriver>,
                     AnyProbe::T2(p) => Arc::clone(p) as Arc<dyn SinkDriver>,
                     AnyProbe::T3(p) => Arc::clone(p) as Arc<dyn SinkDriver>,
+                    AnyProbe::T12(p) => Arc::clone(p) as Arc<dyn SinkDriver>,
                 })
             })
             .collect();
@@ -1103,6 +1128,7 @@ pub fn run(sc: &Scenario) -> History {
         (Root::T1(src), AnyProbe::T1(p)) => src(Message::Handshake(p.sink())),
         (Root::T2(src), AnyProbe::T2(p)) => src(Message::Handshake(p.sink())),
         (Root::T3(src), AnyProbe::T3(p)) => src(Message::Handshake(p.sink())),
+        (Root::T12(src), AnyProbe::T12(p)) => src(Message::Handshake(p.sink())),
         _ => unreachable!(),
     };
 
